@@ -3,6 +3,7 @@
 mod checks;
 mod common;
 mod ehist;
+mod refdns;
 
 fn main() {
     common::panics::install();
@@ -53,10 +54,13 @@ fn main() {
         eprintln!("tier must be quick or thorough");
         std::process::exit(2);
     }
+    common::logsink::install(log::LevelFilter::Trace);
     let threads = std::env::var("VERIF_THREADS").ok().and_then(|s| s.parse().ok()).unwrap_or(16usize);
     rayon::ThreadPoolBuilder::new().num_threads(threads).stack_size(16 << 20).build_global().unwrap();
     match prop {
         "C01" | "C09" | "C10" | "C13" => checks::dhcp_hist::run(prop, &tier, replay),
+        "C12" => checks::c12::run(&tier, replay),
+        "C14" => checks::c14::run(&tier, replay),
         _ => {
             eprintln!("unknown property {prop}");
             std::process::exit(2);
